@@ -150,6 +150,7 @@ struct Ctx
     std::unordered_set<uint64_t> hashes;
     std::map<std::string, double> obs;
     std::vector<std::string> samples;
+    std::map<std::string, std::string> case_samples;   //first concrete case description seen per case class
     std::map<std::string, Viol> viols;
     std::vector<std::string> inconclusive;
     std::map<std::string, uint64_t> skipped;
@@ -298,6 +299,9 @@ inline void begin_case(const char* cls, const char* f, ...) {
     vsnprintf(buf, sizeof(buf), f, ap);
     va_end(ap);
     snprintf(g.cur, 512, "%s\t%s", cls, buf);
+    if (g.case_samples.size() < 8 && g.case_samples.find(cls) == g.case_samples.end()) {
+        g.case_samples[cls] = buf;
+    }
 }
 
 inline bool selected(const char* cls) {
@@ -428,6 +432,10 @@ inline int finish() {
     first = true;
     for (auto& s : g.samples) {
         fprintf(f, "%s\"%s\"", first ? "" : ",", jesc(s).c_str());
+        first = false;
+    }
+    for (auto& kv : g.case_samples) {
+        fprintf(f, "%s\"executed case [%s]: %s\"", first ? "" : ",", jesc(kv.first).c_str(), jesc(kv.second).c_str());
         first = false;
     }
     fprintf(f, "],\n\"inconclusive\":[");
